@@ -37,7 +37,8 @@ def main():
             res.raise_deferred()
         except AnalysisError as e:
             # definite violations found before the analysis got stuck are still a verdict
-            if not any(o.status == 'violated' for o in res.obs):
+            known = {(k['rule'], k['site'], k['construct']) for k in report.load_known() if k.get('property') == a.prop and k.get('status') == 'known'}
+            if not any(o.status == 'violated' and o.key() not in known for o in res.obs):
                 raise
             res.notes.append(f'analysis incomplete after the reported violations: {e}')
             print(f'note: analysis incomplete after the reported violations: {e}')
